@@ -191,12 +191,17 @@ def _derivatives(ctx):
                 if isinstance(den, ast.BinOp) and isinstance(den.op, ast.Pow) and isinstance(const_value(den.right), (int, float)) \
                         and const_value(den.right) > 0:
                     den = den.left          # X**k vanishes exactly where X does
+                from ..astutil import oriented
+                if isinstance(w, ast.Compare) and len(w.ops) == 1 and const_value(w.left) == 0 and \
+                        isinstance(w.ops[0], (ast.NotEq, ast.Eq)):
+                    w = ast.Compare(left=w.comparators[0], ops=w.ops, comparators=[w.left])       # 0 != X  ->  X != 0
                 exact = isinstance(w, ast.Compare) and len(w.ops) == 1 and isinstance(w.ops[0], ast.NotEq) and \
                     const_value(w.comparators[0]) == 0 and norm_text(w.left) == norm_text(den)
+                ow = oriented(w) if isinstance(w, ast.Compare) and len(w.ops) == 1 else None       # X > 0 is written 0 < X
                 # frozen exception, confirmed by reading: 1/cos(u) with u = pi/2*(...) confined to [0, pi/2): cos(u) > 0 on the
                 # whole admissible domain, so `> 0` excludes only the pole and inadmissible arguments
-                cos_ok = isinstance(w, ast.Compare) and isinstance(w.ops[0], ast.Gt) and const_value(w.comparators[0]) == 0 and \
-                    norm_text(w.left) == norm_text(den) and isinstance(den, ast.Call) and call_name(den) == "np.cos"
+                cos_ok = ow is not None and isinstance(ow.ops[0], ast.Lt) and const_value(ow.left) == 0 and \
+                    norm_text(ow.comparators[0]) == norm_text(den) and isinstance(den, ast.Call) and call_name(den) == "np.cos"
                 if exact:
                     ctx.holds(f, c, "%s: quotient by %s is masked exactly at its pole (%s)" % (f.name, norm_text(den), norm_text(w)))
                 elif cos_ok:
@@ -395,6 +400,11 @@ def _convergence(ctx):
             st = c
             while not isinstance(st, ast.stmt):
                 st = st._parent
+            if isinstance(st, ast.Assign) and isinstance(st.targets[0], ast.Subscript) and isinstance(st.value, ast.Subscript) and \
+                    st.value.value is c and const_value(st.value.slice) == 0 and name not in DIRS:
+                # <array>[i] = newton(..., full_output=True)[0]: the root is stored, the convergence record never looked at
+                ctx.violated(f, st, "%s writes a retry result back without checking that the retry converged" % name)
+                continue
             if not (isinstance(st, ast.Assign) and isinstance(st.targets[0], ast.Name)):
                 raise AnalysisError("%s.%s: full_output result not bound to a name" % (ci.name, name))
             var = st.targets[0].id
@@ -628,13 +638,27 @@ def _siblings(ctx):
                              (ci.name, s, p, " ; ".join(ta) or "(nothing)", " ; ".join(tb) or "(nothing)"), text="%s vs %s" % (s, p))
     bases = [ci for ci in prog.classes.values() if ci.name == "NotchApproximationLawBase"]
     if len(bases) == 2:
-        d, na, nb = diff_blocks(bases[0].node.body, bases[1].node.body)
-        if not d:
-            ctx.holds(bases[1].key, None, "the two copies of NotchApproximationLawBase agree (%d statements)" % na)
+        # member by member: what both copies define must agree; a member only one copy has (helpers pulled up into the copy the
+        # laws derive from) is not a disagreement
+        def members(ci_):
+            return {st_.name: st_ for st_ in ci_.node.body if isinstance(st_, (ast.FunctionDef, ast.AsyncFunctionDef))}
+        m0, m1 = members(bases[0]), members(bases[1])
+        common = sorted(set(m0) & set(m1))
+        if not common:
+            raise AnalysisError("the two copies of NotchApproximationLawBase share no member")
+        bad = None
+        for nm in common:
+            d, na, nb = diff_blocks(m0[nm].body, m1[nm].body)
+            if d or norm_text(m0[nm].args) != norm_text(m1[nm].args) or \
+                    [norm_text(x_) for x_ in m0[nm].decorator_list] != [norm_text(x_) for x_ in m1[nm].decorator_list]:
+                bad = bad or (nm, d)
+        if bad is None:
+            ctx.holds(bases[1].key, None, "the two copies of NotchApproximationLawBase agree on their %d common members" % len(common))
         else:
-            tag, ta, sa, tb, sb_ = d[0]
-            ctx.violated(bases[1].key, None, "the two copies of NotchApproximationLawBase differ: %s  vs  %s" %
-                         (" ; ".join(ta) or "(nothing)", " ; ".join(tb) or "(nothing)"), text="base class copies")
+            nm, d = bad
+            tag, ta, sa, tb, sb_ = d[0] if d else ("replace", ["signature"], None, ["signature"], None)
+            ctx.violated(bases[1].key, None, "the two copies of NotchApproximationLawBase differ in %s: %s  vs  %s" %
+                         (nm, " ; ".join(ta) or "(nothing)", " ; ".join(tb) or "(nothing)"), text="base class copies")
 
 
 # =========================================================================== variants
